@@ -703,14 +703,17 @@ def m_overflowing(c):
     m = re.search(r"<impl (\w+)>::overflowing_(\w+)", c.path)
     ty, op = m.group(1), m.group(2)
     a, b = c.args
-    if isinstance(a, VInt) and isinstance(b, VInt):
+    if isinstance(a, VInt) and isinstance(b, VInt) and INT_TYPES[ty][0] == 0:
         lo, hi = INT_TYPES[ty]
         r = a.lin + b.lin if op == "add" else a.lin - b.lin
         if c.st.entails(r - lo) and c.st.entails(Lin.const(hi) - r):
             return c.ret(VTuple((VInt(r), VBool(FALSE))))
-        w = Lin.atom(reg_atom(("wrap", r.key(), ty), lo, hi))
-        ovf = ("or", f_simplify(("ge", r - hi - 1)), f_simplify(("ge", Lin.const(lo) - r - 1)))
-        return c.ret(VTuple((VInt(w), VBool(ovf))))
+        # wrapped = r -/+ 2^bits * carry with carry in {0,1}
+        cy = reg_atom(("b2i", fresh_id()), 0, 1)
+        w = r - Lin.atom(cy).scale(hi + 1) if op == "add" else r + Lin.atom(cy).scale(hi + 1)
+        c.st.add_ge0(w)
+        c.st.add_ge0(Lin.const(hi) - w)
+        return c.ret(VTuple((VInt(w), VBool(("ge", Lin.atom(cy) - 1)))))
     return c.ret(c.fresh())
 
 
